@@ -421,10 +421,18 @@ def rule_r5(ctx: Ctx) -> None:
     ctx.check(wr2.raised == "ValueError", SD + "._serialize_composite", "unknown key -> %s" % wr2.raised, "a value naming a field the structure does not have is rejected", ctx.func(SD + "._serialize_composite").where(), nontrivial=False)
 
 
+def rule_r6_keys(ctx: Ctx) -> None:
+    from . import approx_keys
+
+    ctx.rule("C06.R6", "what is written / read is decided by the schema object given: the codec holds no memo or table keyed by type equality (two different types - an edited definition, a fork of a namespace - may compare equal)", min_instances=1)
+    approx_keys.rule(ctx, "C06.R6", ["_serdes"], "SerializableType equality is name + version + approximate length set: a tag / field table looked up by it belongs to another type", "pydsdl/_serdes.py")
+
+
 def run(ctx: Ctx) -> None:
     ctx.attempt(rule_r1_r2, ctx)
     ctx.attempt(rule_r3, ctx)
     ctx.attempt(rule_r4, ctx)
     ctx.attempt(rule_r5, ctx)
+    ctx.attempt(rule_r6_keys, ctx)
     ctx.assume("struct.pack/unpack implement IEEE 754 binary16/32/64 (trusted stdlib); write_bits/read_bits are LSB-first (bit arithmetic not decided here; offset accounting is C07.R3)")
     ctx.undecided("value round trip for all (type, value) pairs; IEEE-754 / two's-complement / LSB-first bit patterns; equivalence of the aligned fast path and the bit-wise slow path; byte equality of the relaxed input forms")
